@@ -80,6 +80,36 @@ def fam_retries(names, rng, n):
     return ('client-retries', jobs)
 
 
+def fam_part_limits(rng, n):
+    """Part-size limits in force (scaled ChunksizeAdjuster with real code paths):
+    configured chunk sizes below the minimum / needing more than the maximum
+    number of parts / within the limits, for every upload source kind and
+    copies, and a second transfer on the same manager afterwards (a planning
+    decision of one transfer must not leak into the next)."""
+    jobs = []
+    for lim, chunk, thr in (([3, 9, 4], 2, 4), ([1, 9, 4], 2, 4), ([3, 9, 10], 4, 4),
+                            ([2, 4, 3], 1, 2), ([1, 9, 10], 2, 4)):
+        for size in (5, 7, 10, 13):
+            if size > lim[1] * lim[2]:
+                continue        # larger than the largest object the limits allow
+            firsts = [{'kind': 'upload', 'src': 'path', 'size': size},
+                      {'kind': 'upload', 'src': 'seekable', 'size': size},
+                      {'kind': 'upload', 'src': 'nonseekable', 'size': size},
+                      {'kind': 'upload', 'src': 'nonseekable', 'size': size,
+                       'subs': [{'provide_size': size}, {}]},
+                      {'kind': 'copy', 'size': size}]
+            seconds = [{'kind': 'download', 'dst': 'path', 'size': 7},
+                       {'kind': 'upload', 'src': 'path', 'size': 6},
+                       {'kind': 'copy', 'size': 5}]
+            for t1 in firsts:
+                t2 = rng.choice(seconds)
+                sc = {'name': 'part-limits', 'cfg': {'threshold': thr, 'chunk': chunk},
+                      'adjuster': lim, 'transfers': [t1, dict(t2)],
+                      'user': {'sequential': True}}
+                jobs += S.schedules(sc, n, rng)
+    return ('part-limits', jobs)
+
+
 def fam_sizes(rng, n, kinds=('upload', 'copy', 'download')):
     """sizes around k*chunk and the threshold, several geometries."""
     jobs = []
@@ -496,7 +526,7 @@ def families(pid, tier, rng):
                        ('future',), stride=1, per=1 * k),
         ]
     if pid == 'C14':
-        return [fam_sizes(rng, 1 * k)]
+        return [fam_sizes(rng, 1 * k), fam_part_limits(rng, 1 * k)]
     raise KeyError(pid)
 
 
